@@ -48,6 +48,8 @@ instance : Monad AM where
   bind := bind'
 @[inline] def throw (e : Err) : AM α := fun a => (.error e, a)
 @[inline] def get : AM AMgr := fun a => (.ok a, a)
+/-- `if not b: raise e` -/
+@[inline] def check (b : Bool) (e : Err) : AM Unit := if b then pure' () else throw e
 /-- run a core operation on the wrapped manager (`self._bdd.<op>(...)`) -/
 @[inline] def liftM (x : M α) : AM α := fun a =>
   match x a.m with
@@ -84,9 +86,7 @@ An exception inside `__del__` is not propagated by CPython. -/
 def drop (h : Nat) : AM Unit := fun a =>
   match a.handles[h]? with
   | none => (.error .other, a)
-  | some u =>
-    match decref u a.m with
-    | (_, m') => (.ok (), { a with m := m', handles := a.handles.erase h })
+  | some u => (.ok (), { a with m := (decref u a.m).2, handles := a.handles.erase h })
 
 /-- an id above every live handle of the session (for temporaries) -/
 def freshH : AM Nat := fun a =>
@@ -124,8 +124,13 @@ raises `ValueError` as well), then `u.node` -/
 def nodeIn (h : Nat) : AM Int := do
   let u ← nodeSame h
   let a ← AM.get
-  if !a.m.mem u then AM.throw .value
+  AM.check (a.m.mem u) .value
   return u
+
+/-- an optional operand -/
+def optNode (f : Nat → AM Int) : Option Nat → AM (Option Int)
+  | none => pure none
+  | some h => do let u ← f h; pure (some u)
 
 /-- `r = self._bdd.<op>(...); return self._wrap(r)` -/
 def wrapResult (h : Nat) (core : M Int) : AM Int := do
@@ -142,13 +147,9 @@ def aConst (b : Bool) (h : Nat) : AM Int := wrapResult h (pure (if b then 1 else
 
 def aApply (op : String) (hu : Nat) (hv hw : Option Nat) (h : Nat) : AM Int := do
   let u ← nodeIn hu
-  if hv.isNone && hw.isSome then AM.throw .value
-  let v ← match hv with
-    | some hv => do let v ← nodeIn hv; pure (some v)
-    | none => pure none
-  let w ← match hw with
-    | some hw => do let w ← nodeIn hw; pure (some w)
-    | none => pure none
+  AM.check (!(hv.isNone && hw.isSome)) .value
+  let v ← optNode nodeIn hv
+  let w ← optNode nodeIn hw
   wrapResult h (apply op u v w)
 
 def aIte (hg hu hv : Nat) (h : Nat) : AM Int := do
@@ -169,20 +170,28 @@ def ALetArg.isEmpty : ALetArg → Bool
   | .funs d => d.isEmpty
   | .names d => d.isEmpty
 
+/-- `{var: node_of(value) for var, value in definitions.items()}`: no test of the manager
+the values belong to -/
+def nodesAny : List (String × Nat) → AM (List (String × Int))
+  | [] => pure []
+  | (k, hv) :: rest => do
+    let v ← nodeAny hv
+    let r ← nodesAny rest
+    pure ((k, v) :: r)
+
+def aLetArgs : ALetArg → AM LetArg
+  | .bools d => pure (.bools d)
+  | .names d => pure (.names d)
+  | .funs d => do let l ← nodesAny d; pure (.refs l)
+
 /-- `BDD.let(definitions, u)`; the flag says that the operand itself is returned
 (`not definitions`): no new `Function` -/
 def aLet (d : ALetArg) (hu : Nat) (h : Nat) : AM (Int × Bool) := do
   let u ← nodeIn hu
-  if d.isEmpty then return (u, true)
-  let d' ← match d with
-    | .bools d => pure (LetArg.bools d)
-    | .names d => pure (LetArg.names d)
-    | .funs d => do
-      -- `node_of(value)`: no test of the manager the value belongs to
-      let l ← d.mapM fun (k, hv) => do let v ← nodeAny hv; pure (k, v)
-      pure (LetArg.refs l)
-  let r ← wrapResult h (letOp d' u)
-  return (r, false)
+  if d.isEmpty then pure (u, true) else do
+    let d' ← aLetArgs d
+    let r ← wrapResult h (letOp d' u)
+    pure (r, false)
 
 def aQuantify (hu : Nat) (qvars : List Key) (forall_ : Bool) (h : Nat) : AM Int := do
   let u ← nodeIn hu
@@ -281,9 +290,7 @@ def aAddVar (name : String) (level : Option Int) : AM Nat := AM.liftM (addVar na
 /-- `Function._apply(op, other)`: no membership test; `Function(u, self.bdd)` -/
 def fApply (op : String) (hs : Nat) (ho : Option Nat) (h : Nat) : AM Int := do
   let s ← nodeOwn hs
-  let o ← match ho with
-    | none => pure none
-    | some ho => do let o ← nodeSame ho; pure (some o)
+  let o ← optNode nodeSame ho
   let r ← AM.liftM (apply op s o none)
   wrapF h r
   return r
@@ -326,19 +333,17 @@ def fLe (hs ho : Nat) : AM Bool := do
 /-- `Function.__lt__`: `self <= other and self != other` -/
 def fLt (hs ho : Nat) : AM Bool := do
   let le ← fLe hs ho
-  if !le then return false
-  fNe hs ho
+  if le then fNe hs ho else pure false
 
 /-- `Function.low` / `Function.high`: the stored child, not adjusted for the sign of `self` -/
 def fChild (high : Bool) (hs : Nat) (h : Nat) : AM (Option Int) := do
   let s ← nodeOwn hs
   let (_, c) ← AM.liftE fun m => succOf m.tbl s
   match c with
-  | none => return none
-  | some (v, w) =>
-    let r := if high then w else v
-    wrapF h r
-    return some r
+  | none => pure none
+  | some (v, w) => do
+    wrapF h (if high then w else v)
+    pure (some (if high then w else v))
 
 def fLevel (hs : Nat) : AM Nat := do
   let s ← nodeOwn hs
@@ -379,10 +384,10 @@ def fToExpr (hs : Nat) : AM String := do
 `AssertionError` when a count is nonzero -/
 def shutdown : M Unit := do
   let c ← refOf 1
-  if c > 0 then decref 1
+  (if c > 0 then decref 1 else pure ())
   collectGarbage none
   let m ← M.get
-  if m.ref.toList.any (fun (kv : Nat × Nat) => kv.2 != 0) then M.throw .assertion
+  M.assert (!(m.ref.toList.any (fun (kv : Nat × Nat) => kv.2 != 0)))
 
 /-! ### two managers: `BDD.copy(u, other)`, module `copy_bdd(u, target)`, `copy_vars` -/
 
